@@ -34,29 +34,48 @@ RULE = ("join: 2-5 generated measurements (1-14 events each; writer.CHUNK_SIZE_B
         "midnight and month/year crossings, equal keys, run indices 1..11, several frame rates), "
         "feature sets differing from the base set by 0-3 features (runs of adjacent features in "
         "sorted order, features computable for some inputs only, non-scalar features), joined in "
-        "2-4 orders each; every log of every input file (source logs of all levels, cfg and "
-        "command logs of an input that is a join output) must be found under src-#i_<name>; "
+        "2-4 orders each; 35% of the cases contain inputs with minimal metadata (random optional "
+        "keys absent, imaging:frame rate absent when the input has no `frame`); every input has "
+        "its own sample/medium/identifier/flow rate and 0-2 tables (names overlapping between "
+        "inputs and with log names); log lines are short ASCII, > 100 characters, non-ASCII "
+        "below and above 100 UTF-8 bytes, or empty, and are put into the input files with h5py "
+        "(fixed-length or variable-length strings), not with the writer under test; every log "
+        "and table of every input file must be found under src-#i_<name> (and no other), the "
+        "metadata must be those of the earliest input with run index 1 and event count N; "
         "split: N in 2..26, sizes 1, 2, N//2, N-1, N, N+1, 10, random, all-zero images/contours at "
         "random positions (first, last, interior incl. part boundaries; only the first event / "
-        "last image may be dropped), followed by join(parts). One evaluation = one join or split run whose "
-        "files were compared column by column with the Python oracle and the Lean model; distinct = "
-        "runs in which sorting permuted the inputs, a feature was pruned, an offset was non-zero, "
-        "or the split size does not divide N.")
+        "last image may be dropped; sizes that leave a part without events must raise without "
+        "any file under a final name), parts keep logs/tables under src_<name> and the metadata, "
+        "followed by join(parts) incl. its logs, tables and the re-based index_online. One "
+        "evaluation = one join or split run whose files were compared column by column with the "
+        "Python oracle and the Lean model; distinct = runs in which sorting permuted the inputs, "
+        "a feature was pruned, an offset was non-zero, or the split size does not divide N.")
 TRUSTED_BASE = [
     "modelled, not verified: time.strptime/time.mktime (UTC sandbox, no DST jump between the "
     "generated dates), Python's stable `sorted`, float64 arithmetic on the generated values "
     "(dyadic rationals, all sums/products exact), RTDCWriter/export (properties C01/C02)",
-    "the joined file's cfg/command logs and metadata are not modelled (only source logs)",
+    "the input files' logs and tables are written with h5py and metadata keys are deleted with "
+    "h5py (HDF5 layout /logs/<name>, /tables/<name>, root attributes `section:key`)",
+    "log lines, table rows and metadata values cross the protocol as SHA-1 prefixes (the model "
+    "treats them as opaque tokens)",
+    "the joined file's src-#i_cfg, dclab-join and warning logs, the version branding of "
+    "setup:software version and the keys the writer derives from the data (roi size, run "
+    "identifier of a split part) are not modelled",
 ]
 ASSUMPTIONS = ["inputs have well-formed experiment:date/time and a run index",
+               "an input without imaging:frame rate has no feature `frame` (otherwise today's "
+               "join raises KeyError for a later input; not generated)",
+               "split inputs carry experiment:sample (candidate finding: KeyError otherwise)",
                "log names of different sources do not collide after prefixing"]
 NOT_PROVED = [
     "time/frame monotone across the seams (false in general: depends on measurement durations); "
     "proved instead: offsets are non-negative and the shifted columns are exactly col + offset",
-    "tables and metadata of the joined file (correspondence-only: not compared)",
-    "split leaving an empty part when the only event of a part is a skipped empty boundary image "
-    "(dclab raises ValueError 'Empty data object'; such inputs are not generated, see "
-    "findings/C09-observation-empty-part.md)",
+    "closed arithmetic characterisation of the (N, s, z0, zN) for which split leaves an empty "
+    "part (proved: split fails iff some window holds dropped boundary events only, then nothing "
+    "is renamed and k+1 temporaries stay; never fails without skipping; instances by `decide`; "
+    "see findings/C09-observation-empty-part.md)",
+    "sample name `<sample> i/n` of the split parts, src-#i_cfg / command / warning logs "
+    "(correspondence-only or not compared)",
 ]
 
 SCAL = ["area_cvx", "area_um", "aspect", "bright_avg", "deform", "fl1_max", "frame",
@@ -101,20 +120,47 @@ def round_half_even(q):
 
 
 def make_file(path, m):
+    """input measurement of a case.  Events and metadata go through `gen.make_rtdc`; the logs are
+    written with h5py directly (fixed-length UTF-8 byte strings wide enough for the longest line,
+    or variable-length strings), so that the *input* holds exactly the generated lines whatever
+    the writer under test does with long / non-ASCII lines; metadata keys listed in `drop_meta`
+    are removed again (measurements with minimal metadata)."""
+    import h5py
     feats = [f for f in m["feats"]]
-    gen.make_rtdc(path, m["tokens"], feats=feats, trace_names=TRACE_NAMES,
-                  logs={k: list(v) for k, v in m["logs"].items()},
-                  meta={"experiment": {"date": m["date"], "time": m["time"],
-                                       "run index": m["run"]},
-                        "imaging": {"frame rate": m["fr"]}})
-    if m.get("zero_image") or m.get("zero_contour"):
-        import h5py
-        with h5py.File(path, "a") as h:
-            for i in m.get("zero_image", []):
-                h["events/image"][i] = 0
-            for i in m.get("zero_contour", []):
-                c = h["events/contour"][str(i)]
-                c[...] = 0
+    meta = {"experiment": {"date": m["date"], "time": m["time"], "run index": m["run"]},
+            "imaging": {"frame rate": m["fr"] if m["fr"] is not None else 1.0}}
+    for sec, kv in (m.get("meta_extra") or {}).items():
+        meta.setdefault(sec, {}).update(kv)
+    gen.make_rtdc(path, m["tokens"], feats=feats, trace_names=TRACE_NAMES, logs=None, meta=meta)
+    with h5py.File(path, "a") as h:
+        for name, tab in (m.get("tables") or {}).items():
+            # a table is a compound dataset (one float64 field per column)
+            dt = np.dtype({"names": list(tab["cols"]), "formats": [np.float64] * len(tab["cols"])})
+            arr = np.zeros(len(tab["rows"]), dtype=dt)
+            for ci, cn in enumerate(tab["cols"]):
+                arr[cn] = [r[ci] for r in tab["rows"]]
+            h.require_group("tables").create_dataset(name, data=np.rec.array(arr))
+        drop = list(m.get("drop_meta", []))
+        if m["fr"] is None:
+            drop.append("imaging:frame rate")
+        for key in drop:
+            if key in h.attrs:
+                del h.attrs[key]
+        if m["logs"]:
+            lg = h.require_group("logs")
+            for name, lines in m["logs"].items():
+                raw = [str(li).encode("utf-8") for li in lines]
+                if m.get("log_vlen"):
+                    lg.create_dataset(name, data=np.array(raw, dtype=object),
+                                      dtype=h5py.string_dtype())
+                else:
+                    width = max([100] + [len(b) for b in raw])
+                    lg.create_dataset(name, data=np.array(raw, dtype=f"S{width}"))
+        for i in m.get("zero_image", []):
+            h["events/image"][i] = 0
+        for i in m.get("zero_contour", []):
+            c = h["events/contour"][str(i)]
+            c[...] = 0
     return path
 
 
@@ -131,6 +177,12 @@ def set_chunk_bytes(nbytes):
 def line_hash(line):
     import hashlib
     return hashlib.sha1(str(line).encode()).hexdigest()[:10]
+
+
+def line_class(line):
+    nb = len(str(line).encode("utf-8"))
+    return ("empty" if nb == 0 else
+            ("ascii" if nb == len(str(line)) else "non-ascii") + ("<=100B" if nb <= 100 else ">100B"))
 
 
 def read_cols(ds, feats, universe):
@@ -162,18 +214,71 @@ def read_cols(ds, feats, universe):
     return cols
 
 
+def read_logs(ds, path):
+    """all non-empty logs of a file as {name: [lines]}.  Read through dclab; a log that dclab
+    cannot decode (e.g. a line cut in the middle of a multi-byte character) is read from the HDF5
+    dataset with replacement characters, so that it shows up as a difference, not as a crash."""
+    out = {}
+    for k in list(ds.logs.keys()):
+        try:
+            out[k] = [str(li) for li in ds.logs[k]]
+        except Exception:  # noqa
+            import h5py
+            with h5py.File(path, "r") as h:
+                out[k] = [li.decode("utf-8", errors="replace") if isinstance(li, bytes)
+                          else str(li) for li in h["logs"][k][:]]
+    return out
+
+
+def read_tables(ds):
+    """{name: [column names, row, row, …]} with exact values"""
+    out = {}
+    for k in list(ds.tables.keys()):
+        arr = np.asarray(ds.tables[k][:])
+        names = list(arr.dtype.names or ())
+        out[k] = [",".join(names)] + [" ".join(rstr(v) for v in np.atleast_1d(np.array(row.tolist(), dtype=np.float64)))
+                                       for row in arr.reshape(-1)]
+    return out
+
+
+def read_cfg(ds):
+    """{"section:key": str(value)} of the metadata sections"""
+    import dclab.definitions as dfn
+    out = {}
+    for sec in dfn.CFG_METADATA:
+        if sec in ds.config:
+            for k in ds.config[sec]:
+                out[f"{sec}:{k}"] = str(ds.config[sec][k])
+    return out
+
+
 def read_file(path, feats, universe, avail_of=()):
     dclab = common.import_dclab()
     with dclab.new_dataset(path) as ds:
         innate = sorted(ds.features_innate)
         want = innate if feats is None else [f for f in feats if f in ds.features]
         ex, im = ds.config["experiment"], ds.config["imaging"]
-        info = {"n": len(ds), "innate": innate,
+        fr = im.get("frame rate", None) if hasattr(im, "get") else \
+            (im["frame rate"] if "frame rate" in im else None)
+        try:
+            n = len(ds)
+        except Exception:  # noqa
+            # a file without any feature and without experiment:event count (degenerate join of
+            # inputs that have no feature in common) has no defined length
+            if innate:
+                raise
+            n, want = 0, []
+        info = {"n": n, "innate": innate,
                 "stamp": {"date": ex["date"], "time": ex["time"], "run": int(ex["run index"]),
-                          "fr": float(im["frame rate"])},
+                          "fr": None if fr is None else float(fr)},
                 "avail": sorted(f for f in avail_of if f in ds.features),
-                "cols": read_cols(ds, sorted(set(want) | {"index"}), universe),
-                "logs": {k: list(ds.logs[k]) for k in ds.logs.keys()}}
+                "cols": read_cols(ds, sorted(set(want) | {"index"}), universe) if innate else {},
+                "logs": read_logs(ds, path)}
+        for key, fn in (("tables", read_tables), ("cfg", read_cfg)):
+            try:
+                info[key] = fn(ds)
+            except Exception as e:  # noqa
+                info[key] = {"<unreadable>": err_str(e)}
     return info
 
 
@@ -213,6 +318,12 @@ def run_join_case(spec, workdir):
         run = {"order": order, "error": None, "out": None}
         try:
             cli.join(paths_in=[paths[i] for i in order], path_out=out)
+        except Exception as e:  # noqa
+            run["error"] = err_str(e)
+            run["kind"] = common.err_class(e)
+            res["runs"].append(run)
+            continue
+        try:
             info = read_file(out, None, universe)
             files = json.loads("\n".join(info["logs"].get("dclab-join", ["{}"]))).get("files", [])
             names = [p.name for p in paths]
@@ -220,8 +331,8 @@ def run_join_case(spec, workdir):
             info["temp_left"] = out.with_suffix(".rtdc~").exists()
             run["out"] = info
         except Exception as e:  # noqa
-            run["error"] = err_str(e)
-            run["kind"] = common.err_class(e)
+            run["error"] = "joined file cannot be read: " + err_str(e)
+            run["kind"] = "err:unreadable-output"
         res["runs"].append(run)
     shutil.rmtree(d, ignore_errors=True)
     return res
@@ -251,6 +362,8 @@ def run_split_case(spec, workdir):
             run["extra_files"] = sorted(q.name for q in od.iterdir() if q not in outs)
         except Exception as e:  # noqa
             run["error"] = err_str(e)
+            run["kind"] = common.err_class(e)
+            run["left"] = sorted(q.name for q in od.iterdir()) if od.exists() else []
             res["runs"].append(run)
             continue
         if len(outs) >= 2 and spec.get("roundtrip", True):
@@ -289,9 +402,67 @@ def pool_map(jobs):
 
 # ---------------------------------------------------------------------------------------
 # generators
+NONASCII = ["\u00b5", "\u00b0", "\u00fc", "\u00b7", "\u00df", "\u20ac", "\u03b7", "\u4e2d",
+            "\U0001f52c"]        # 2-, 3- and 4-byte UTF-8 sequences
+
+
+def gen_line(rng, tag, j):
+    """a log line: short ASCII / long ASCII (> 100 characters) / non-ASCII below and above 100
+    UTF-8 bytes (incl. <= 100 characters but > 100 bytes) / empty"""
+    head = f"m{tag}l{j}t{rng.randrange(99)}"
+    r = rng.random()
+    if r < 0.5:
+        return head
+    if r < 0.55:
+        return ""
+    if r < 0.65:
+        return head + " " + "x" * rng.randint(95, 160)
+    words = []
+    target = rng.choice([8, 30, 90, 98, 101, 140])        # characters
+    while sum(len(w) + 1 for w in words) < target:
+        w = rng.choice(["flow", "0.04", "visc", "20", "T", "mPa", "l/s", "C", "ok"])
+        if rng.random() < 0.6:
+            w = rng.choice(NONASCII) + w
+        words.append(w)
+    return (head + " " + " ".join(words))[:max(target, len(head) + 2)].rstrip()
+
+
 def gen_logs(rng, tag):
-    return {f"log{j}": [f"m{tag}l{j}t{rng.randrange(99)}" for _ in range(rng.randint(1, 3))]
+    return {f"log{j}": [gen_line(rng, tag, j) for _ in range(rng.randint(1, 3))]
             for j in range(rng.randint(0, 2))}
+
+
+def gen_tables(rng, tag):
+    """0-2 tables (compound datasets) with 1-3 columns and 1-4 rows of dyadic values; the names
+    overlap between inputs and with log names"""
+    out = {}
+    for name in rng.sample(["tab0", "tab1", "log0", "src", "cfg"], rng.choice([0, 0, 1, 1, 2])):
+        cols = rng.sample(["a", "b", "time", "t x"], rng.randint(1, 3))
+        out[name] = {"cols": cols,
+                     "rows": [[(rng.randrange(-64, 64) + 1000 * tag) / 8 for _ in cols]
+                              for _ in range(rng.randint(1, 4))]}
+    return out
+
+
+def gen_meta_extra(rng, tag):
+    """metadata that differ between the inputs (the joined file must carry those of the first)"""
+    return {"experiment": {"sample": rng.choice([f"sample {tag}", "s", f"\u00b5-{tag}"])},
+            "setup": {"medium": rng.choice(["CellCarrierB", "CellCarrier", "water"]),
+                      "identifier": f"id-{tag}-{rng.randrange(9)}",
+                      "flow rate": rng.choice([0.04, 0.16, 0.32])}}
+
+
+#: metadata that a measurement need not carry (split additionally needs experiment:sample)
+OPTIONAL_META = ["experiment:event count", "imaging:flash device", "imaging:flash duration",
+                 "imaging:pixel size", "imaging:roi position x", "imaging:roi position y",
+                 "imaging:roi size x", "imaging:roi size y", "setup:flow rate sample",
+                 "setup:flow rate sheath", "setup:identifier", "setup:module composition",
+                 "setup:software version", "setup:medium", "setup:flow rate",
+                 "setup:channel width", "setup:chip region"]
+
+
+def gen_drop_meta(rng):
+    return sorted(rng.sample(OPTIONAL_META, rng.randint(1, len(OPTIONAL_META))))
 
 
 def gen_join_case(rng, thorough):
@@ -319,6 +490,7 @@ def gen_join_case(rng, thorough):
     else:
         runs = [rng.choice([1, 1, 1, 2, 10]) for _ in range(k)]
     inputs = []
+    minimal = rng.random() < 0.35
     for i in range(k):
         feats = list(base)
         r = rng.random()
@@ -333,12 +505,22 @@ def gen_join_case(rng, thorough):
         for extra in rng.sample(SCAL, rng.randint(0, 2)):
             if extra not in feats:
                 feats.append(extra)
+        # measurements with minimal metadata: optional keys absent; without imaging:frame rate
+        # only together with the absence of the feature `frame` (then no frame offset is needed)
+        fr, drop = rng.choice(FRAME_RATES), []
+        if minimal and rng.random() < 0.6:
+            drop = gen_drop_meta(rng)
+            if rng.random() < 0.6:
+                fr = None
+                feats = [f for f in feats if f != "frame"]
         if not feats:
             feats = ["deform"]
         n = rng.randint(1, nmax)
         inputs.append({"tokens": [20 * i + t for t in range(n)], "feats": sorted(feats),
                        "date": stamps[i][0], "time": stamps[i][1], "run": runs[i],
-                       "fr": rng.choice(FRAME_RATES), "logs": gen_logs(rng, i)})
+                       "fr": fr, "logs": gen_logs(rng, i), "drop_meta": drop,
+                       "log_vlen": rng.random() < 0.25, "tables": gen_tables(rng, i),
+                       "meta_extra": gen_meta_extra(rng, i)})
     pre_join = None
     if k >= 3 and rng.random() < 0.3:      # history: two of the inputs were joined before
         pre_join = rng.sample(range(k), 2)
@@ -411,20 +593,21 @@ def gen_split_case(rng, thorough):
     sizes = sorted({1, 2, max(1, n // 2), n - 1, n, n + 1} - {0})
     if n > 12:
         sizes = sorted(set(sizes) | {10, rng.randint(3, n - 2)})
-    # a part consisting only of a dropped boundary event makes split fail (recorded observation)
-    if z0:
-        sizes = [s for s in sizes if s > 1]
-    if zN:
-        sizes = [s for s in sizes if s > 1 and n % s != 1]
-    if z0 and zN and n == 2:
-        sizes = []
+    # a part consisting only of dropped boundary events makes split fail (recorded observation,
+    # model `splitRun`): those sizes are kept, the expected outcome is "raises, nothing renamed"
     stamp = rng.choice(STAMPS["frac"] + STAMPS["midnight"])
+    fr, drop = rng.choice(FRAME_RATES), []
+    if rng.random() < 0.25:
+        drop = gen_drop_meta(rng)
+        if "frame" not in feats and rng.random() < 0.6:
+            fr = None
     return {"kind": "split", "sizes": sizes, "roundtrip": not (z0 or zN),
             "chunk_bytes": chunk_bytes, "input": {
         "tokens": list(range(5, 5 + n)), "feats": sorted(feats), "date": stamp[0],
-        "time": stamp[1], "run": rng.choice([1, 3, 10]), "fr": rng.choice(FRAME_RATES),
+        "time": stamp[1], "run": rng.choice([1, 3, 10]), "fr": fr,
         "logs": gen_logs(rng, 0), "z0": z0, "zN": zN, "zero_image": zero_image,
-        "zero_contour": zero_contour}}
+        "zero_contour": zero_contour, "drop_meta": drop, "log_vlen": rng.random() < 0.25,
+        "tables": gen_tables(rng, 0), "meta_extra": gen_meta_extra(rng, 0)}}
 
 
 # ---------------------------------------------------------------------------------------
@@ -455,7 +638,13 @@ def oracle_join(spec, res, order):
             if f == "time":
                 c = [rstr(Fraction(v) + ti) for v in c]
             elif f == "frame":
-                c = [rstr(Fraction(v) + round_half_even(ti * Fraction(m["fr"]))) for v in c]
+                if m["fr"] is None:
+                    if pos > 0:         # no frame rate: the frame offset is not defined
+                        return {"undefined": "frame offset of an input without frame rate"}
+                    rate = Fraction(0)
+                else:
+                    rate = Fraction(m["fr"])
+                c = [rstr(Fraction(v) + round_half_even(ti * rate)) for v in c]
             elif f == "index_online" and pos > 0:
                 base = Fraction(cols[f][-1]) + 1 if cols[f] else 0
                 c = [rstr(Fraction(v) + base) for v in c]
@@ -468,9 +657,49 @@ def oracle_join(spec, res, order):
         # the prefixed logs of its own sources, its cfg logs and its command log)
         for name, lines in info["logs"].items():
             logs[f"src-#{pos + 1}_{name}"] = list(lines)
+    tables = {}
+    for pos, (i, m, info) in enumerate(ms):
+        for name, rows in info.get("tables", {}).items():
+            tables[f"src-#{pos + 1}_{name}"] = list(rows)
+    # metadata: those of the earliest input; run index 1; event count = number of events
+    cfg = dict(first.get("cfg", {}))
+    cfg["experiment:run index"] = "1"
+    cfg["experiment:event count"] = str(total)
     return {"order": [e[0] for e in ms], "feats": feats, "cols": cols, "logs": logs,
             "n": total, "offsets": [rstr(key_of(e[2])[0] - t0) for e in ms],
-            "k": len(ms)}
+            "k": len(ms), "tables": tables, "cfg": cfg}
+
+
+def log_diff(got, want):
+    """first difference between two logs (lists of lines), with byte lengths"""
+    if got is None:
+        return f"missing (expected {len(want)} lines)"
+    if len(got) != len(want):
+        return f"{len(got)} lines instead of {len(want)}"
+    for i, (a, b) in enumerate(zip(got, want)):
+        if a != b:
+            k = next((j for j in range(min(len(a), len(b))) if a[j] != b[j]), min(len(a), len(b)))
+            return (f"line {i} is {a[max(0, k - 12):k + 12]!r} ({len(a.encode('utf-8', 'replace'))} "
+                    f"bytes) instead of {b[max(0, k - 12):k + 12]!r} "
+                    f"({len(b.encode('utf-8', 'replace'))} bytes) from character {k} on")
+    return "equal"
+
+
+#: metadata keys that every dclab writer rewrites (version branding)
+CFG_IGNORED = ("setup:software version",)
+
+
+#: metadata that the writer / exporter derives from the data when the source does not carry them
+#: (image shape, run identifier needed for the basin of a split part, trace length)
+CFG_DERIVED = ("imaging:roi size x", "imaging:roi size y", "experiment:run identifier",
+               "fluorescence:samples per event", "fluorescence:channel count")
+
+
+def cfg_diff(got, want, ignore=()):
+    keys = [k for k in sorted(set(got) | set(want))
+            if k not in CFG_IGNORED and k not in ignore and got.get(k) != want.get(k)
+            and not (k in CFG_DERIVED and k not in want)]
+    return "; ".join(f"{k}: {got.get(k)!r} instead of {want.get(k)!r}" for k in keys[:4])
 
 
 def src_logs(logs, k=99):
@@ -488,8 +717,11 @@ def check_join_run(spec, res, run):
     if exp is None:
         return [] if run["error"] and run["error"].startswith("ValueError") else \
             [f"join of {len(run['order'])} input(s) did not raise ValueError: {run['error']}"]
+    if exp.get("undefined"):
+        return []
     if run["error"]:
-        return [f"join raised {run['error']}"]
+        return [run["error"] if run.get("kind") == "err:unreadable-output"
+                else f"join raised {run['error']}"]
     out = run["out"]
     bad = []
     if not exp["feats"]:
@@ -514,13 +746,23 @@ def check_join_run(spec, res, run):
     got = src_logs(out["logs"], exp["k"])
     for name, lines in exp["logs"].items():
         if got.get(name) != lines:
-            bad.append(f"log {name}: {str(got.get(name))[:80]} instead of {str(lines)[:80]}")
+            bad.append(f"log {name}: " + log_diff(got.get(name), lines))
             break
     extra = sorted(set(got) - set(exp["logs"]))
     if extra:
         bad.append(f"unexpected source logs {extra[:4]}")
     if out.get("temp_left"):
         bad.append("temporary file left behind after a successful join")
+    if "tables" in out and out["tables"] != exp["tables"]:
+        names = sorted(set(out["tables"]) ^ set(exp["tables"])) or \
+            [n for n in exp["tables"] if out["tables"].get(n) != exp["tables"][n]]
+        bad.append(f"tables of the joined file differ from the inputs' tables under src-#i_: "
+                   f"{names[:4]} (got {sorted(out['tables'])[:6]})")
+    if "cfg" in out:
+        d = cfg_diff(out["cfg"], exp["cfg"])
+        if d:
+            bad.append("metadata of the joined file are not those of the earliest input "
+                       "(run index 1, event count N): " + d)
     return bad
 
 
@@ -533,9 +775,20 @@ def expected_parts(n, s, z0, zN):
 def check_split_run(spec, res, run):
     m, x = spec["input"], res["input"]
     n, s = x["n"], run["s"]
+    exp = expected_parts(n, s, m.get("z0"), m.get("zN"))
+    if any(not p for p in exp):
+        # a part holds dropped boundary events only (model `splitRun`): dclab raises; the
+        # property then only demands that nothing incomplete appears under a final name
+        if run["error"]:
+            final = [q for q in run.get("left", []) if q.endswith(".rtdc")]
+            return [f"split(s={s}) raised {run['error']} but left output files {final[:3]}"] \
+                if final else []
+        exp = [p for p in exp if p]
+        return [] if [q["n"] for q in run["parts"]] == [len(p) for p in exp] else \
+            [f"split(s={s}) with an empty part wrote parts of {[q['n'] for q in run['parts']]} "
+             f"events, expected {[len(p) for p in exp]}"]
     if run["error"]:
         return [f"split(s={s}) raised {run['error']}"]
-    exp = expected_parts(n, s, m.get("z0"), m.get("zN"))
     parts = run["parts"]
     bad = []
     if len(parts) != -(-n // s):
@@ -555,7 +808,16 @@ def check_split_run(spec, res, run):
                 break
         for name, lines in m["logs"].items():        # export keeps source logs as `src_<name>`
             if p["logs"].get("src_" + name) != list(lines):
-                bad.append(f"split(s={s}) part {pi + 1} lost log {name}")
+                bad.append(f"split(s={s}) part {pi + 1} log {name}: "
+                           + log_diff(p["logs"].get("src_" + name), list(lines)))
+        want_tabs = {"src_" + k: v for k, v in x.get("tables", {}).items()}
+        if "tables" in p and p["tables"] != want_tabs:
+            bad.append(f"split(s={s}) part {pi + 1} tables {sorted(p['tables'])} differ from the "
+                       f"original's tables under src_: {sorted(want_tabs)}")
+        if "cfg" in p and "cfg" in x:
+            d = cfg_diff(p["cfg"], x["cfg"], ignore=("experiment:sample", "experiment:event count"))
+            if d:
+                bad.append(f"split(s={s}) part {pi + 1} metadata differ from the original: " + d)
     if run["extra_files"]:
         bad.append(f"split left extra files {run['extra_files'][:3]}")
     if len(parts) >= 2 and spec.get("roundtrip", True):
@@ -563,12 +825,30 @@ def check_split_run(spec, res, run):
             bad.append(f"join(split(x, {s})) raised {run['rt_error']}")
         elif run["rt"] is not None:
             for f in x["innate"]:
+                want = x["cols"][f]
                 if f == "index_online":
-                    continue            # re-based by join (O4)
-                if run["rt"]["cols"].get(f) != x["cols"][f]:
+                    # re-based by join (O4): every part is shifted by (last value so far + 1)
+                    want = []
+                    for pi, idx in enumerate(exp):
+                        base = Fraction(want[-1]) + 1 if (pi and want) else 0
+                        want += [rstr(Fraction(x["cols"][f][j]) + base) for j in idx]
+                if run["rt"]["cols"].get(f) != want:
                     bad.append(f"join(split(x, {s})) feature {f}: "
-                               f"{run['rt']['cols'].get(f, [])[:6]} instead of {x['cols'][f][:6]}")
+                               f"{run['rt']['cols'].get(f, [])[:6]} instead of {want[:6]}")
                     break
+            # logs and tables of the original: once per part under src-#i_src_<name>
+            for pi in range(len(parts)):
+                for name, lines in m["logs"].items():
+                    got = run["rt"]["logs"].get(f"src-#{pi + 1}_src_{name}")
+                    if got != list(lines):
+                        bad.append(f"join(split(x, {s})) log src-#{pi + 1}_src_{name}: "
+                                   + log_diff(got, list(lines)))
+                        break
+                for name, rows in x.get("tables", {}).items():
+                    if "tables" in run["rt"] and \
+                            run["rt"]["tables"].get(f"src-#{pi + 1}_src_{name}") != rows:
+                        bad.append(f"join(split(x, {s})) lost table src-#{pi + 1}_src_{name}")
+                        break
     return bad
 
 
@@ -576,7 +856,10 @@ def check_split_run(spec, res, run):
 # model side
 def meas_lines(tag, info, feats):
     st = info["stamp"]
-    lines = [f"meas {tag} {st['date']} {st['time']} {st['run']} {rstr(Fraction(st['fr']))}",
+    # a measurement without imaging:frame rate never takes part in a join of `frame` here; the
+    # model's frame rate is then irrelevant (theorem join_fr_irrelevant) and sent as 0
+    lines = [f"meas {tag} {st['date']} {st['time']} {st['run']} "
+             f"{rstr(Fraction(st['fr'] if st['fr'] is not None else 0))}",
              "innate " + (",".join(info["innate"]) or "-"),
              "avail " + (",".join(sorted(set(info["avail"]) | set(info["innate"]))) or "-")]
     for f in sorted(set(feats) | {"index"}):
@@ -584,7 +867,22 @@ def meas_lines(tag, info, feats):
             lines.append(f"col {f} " + (",".join(info["cols"][f]) or "-"))
     for name, ls in info["logs"].items():
         lines.append(f"log {name} " + (",".join(line_hash(x) for x in ls) or "-"))
+    for name, rows in info.get("tables", {}).items():
+        lines.append(f"table {name} " + (",".join(line_hash(x) for x in rows) or "-"))
+    lines.append("cfg " + (",".join(f"{k}={v}" for k, v in model_cfg(info.get("cfg", {})).items())
+                           or "-"))
     return lines
+
+
+#: metadata the model holds in dedicated fields (day, sec, run, count) or that every writer rewrites
+CFG_SPECIAL = ("experiment:date", "experiment:time", "experiment:run index",
+               "experiment:event count") + CFG_IGNORED
+
+
+def model_cfg(cfg):
+    """metadata as protocol tokens: key with `_` for blanks, value hashed"""
+    return {k.replace(" ", "_"): line_hash(v) for k, v in sorted(cfg.items())
+            if k not in CFG_SPECIAL and "=" not in k and "," not in k}
 
 
 def model_lines(spec, res):
@@ -606,15 +904,25 @@ def model_lines(spec, res):
                          f"{int(bool(m.get('zN')))}")
             marks.append(len(lines))
             lines.append(f"rt 0 {x['n']} {run['s']}")
+            marks.append(len(lines))
+            lines.append(f"splitrun {x['n']} {run['s']} {int(bool(m.get('z0')))} "
+                         f"{int(bool(m.get('zN')))}")
     return lines, marks
 
 
 def parse_joined(ans):
-    out = {"cols": {}, "logs": {}}
+    out = {"cols": {}, "logs": {}, "tables": {}, "cfg": {}}
     for part in ans.split(" ; "):
         key, _, val = part.partition(" ")
         if key in ("order", "offsets", "feats"):
             out[key] = [v for v in val.split(",") if v != ""]
+        elif key == "table":
+            f, _, vs = val.partition("=")
+            out["tables"][f] = [v for v in vs.split(",") if v != ""]
+        elif key == "cfg":
+            out["cfg"] = dict(kv.split("=", 1) for kv in val.split(",") if "=" in kv)
+        elif key in ("day", "sec", "run", "count"):
+            out[key] = val.strip()
         elif key == "col":
             f, _, vs = val.partition("=")
             out["cols"][f] = [v for v in vs.split(",") if v != ""]
@@ -648,13 +956,44 @@ def mirror_join(run, ans):
         names = sorted(set(mod["logs"]) ^ set(impl_logs)) or \
             [n for n in mod["logs"] if mod["logs"][n] != impl_logs.get(n)]
         diffs.append(f"logs differ: {names[:4]}")
+    if "tables" in out:
+        impl_tabs = {n: [line_hash(x) for x in v] for n, v in out["tables"].items()}
+        if mod["tables"] != impl_tabs:
+            diffs.append(f"tables: model {sorted(mod['tables'])} impl {sorted(impl_tabs)}")
+    if "cfg" in out and "<unreadable>" not in out["cfg"]:
+        impl_cfg = {k: v for k, v in model_cfg(out["cfg"]).items()
+                    if k in mod["cfg"] or k.replace("_", " ") not in CFG_DERIVED}
+        if mod["cfg"] != impl_cfg:
+            diffs.append(f"metadata: model {sorted(mod['cfg'].items())[:6]} impl "
+                         f"{sorted(model_cfg(out['cfg']).items())[:6]}")
+        st = out["stamp"]
+        days, sec = stamp_seconds(st["date"], st["time"])
+        impl_meta = [str(days), rstr(sec), str(st["run"]),
+                     out["cfg"].get("experiment:event count")]
+        if [mod.get("day"), mod.get("sec"), mod.get("run"), mod.get("count")] != impl_meta:
+            diffs.append(f"date/time/run index/event count: model "
+                         f"{[mod.get(k) for k in ('day', 'sec', 'run', 'count')]} impl {impl_meta}")
     return diffs
 
 
-def mirror_split(spec, res, run, ans_split, ans_rt):
+def mirror_split(spec, res, run, ans_split, ans_rt, ans_run):
     diffs = []
+    if ans_run.startswith("error"):
+        # model: ValueError raised by the export of the first empty part, whose temporary and
+        # those of the parts before it are left; nothing under a final name
+        if not run["error"]:
+            return [f"model {ans_run}, implementation succeeded"]
+        if run.get("kind") != "err:value":
+            diffs.append(f"model ValueError, implementation raised {run['error']}")
+        temps = [q for q in run.get("left", []) if q.endswith("~")]
+        if len(temps) != int(ans_run.split()[1]) or len(temps) != len(run.get("left", [])):
+            diffs.append(f"model {ans_run} (temporaries left), implementation left "
+                         f"{run.get('left')}")
+        return diffs
     if run["error"]:
-        return [f"model {ans_split[:40]}, implementation raised {run['error']}"]
+        return [f"model {ans_run[:40]}, implementation raised {run['error']}"]
+    if ans_run != "ok " + ans_split[len("parts "):]:
+        diffs.append(f"model splitrun {ans_run[:60]} differs from split {ans_split[:60]}")
     x = res["input"]
     want = [[int(v) for v in p.split(",") if v != ""] for p in ans_split[len("parts "):].split("|")]
     for pi, (p, idx) in enumerate(zip(run["parts"], want)):
@@ -672,6 +1011,23 @@ def mirror_split(spec, res, run, ans_split, ans_rt):
                     run["rt"]["cols"].get(f) != mod["cols"][f]:
                 diffs.append(f"s={run['s']} join(split) feature {f}: model {mod['cols'][f][:6]} "
                              f"impl {run['rt']['cols'].get(f, [])[:6]}")
+        if "index_online" in mod["cols"] and \
+                run["rt"]["cols"].get("index_online") != mod["cols"]["index_online"]:
+            diffs.append(f"s={run['s']} join(split) index_online: model "
+                         f"{mod['cols']['index_online'][:6]} impl "
+                         f"{run['rt']['cols'].get('index_online', [])[:6]}")
+        # logs / tables of the parts in the joined file (model: src-#i_src_<name> only)
+        impl_logs = {n: [line_hash(v) for v in ls] for n, ls in run["rt"]["logs"].items()
+                     if re.match(r"src-#\d+_src_", n)}
+        if mod["logs"] != impl_logs:
+            diffs.append(f"s={run['s']} join(split) logs: model {sorted(mod['logs'])[:4]} impl "
+                         f"{sorted(impl_logs)[:4]}")
+        if "tables" in run["rt"]:
+            impl_tabs = {n: [line_hash(v) for v in rows]
+                         for n, rows in run["rt"]["tables"].items()}
+            if mod["tables"] != impl_tabs:
+                diffs.append(f"s={run['s']} join(split) tables: model {sorted(mod['tables'])[:4]} "
+                             f"impl {sorted(impl_tabs)[:4]}")
     return diffs
 
 
@@ -680,7 +1036,7 @@ def nontrivial_join(spec, res, run):
     if res.get("pre_error"):
         return False
     exp = oracle_join(spec, res, run["order"])
-    if exp is None:
+    if exp is None or exp.get("undefined"):
         return False
     first = res["inputs"][exp["order"][0]]
     return (exp["order"] != run["order"] or len(exp["feats"]) < len(first["innate"])
@@ -763,6 +1119,15 @@ def evaluate(ctx, spec, res, answers, workdir, collect_mirror):
             ctx.stat(f"join:scenario={spec.get('scenario')}")
             if spec.get("pre_join"):
                 ctx.stat("join:input-is-a-join-output")
+            if any(m.get("tables") for m in spec["inputs"]):
+                ctx.stat("join:input-with-tables")
+            if any(m.get("fr") is None for m in spec["inputs"]):
+                ctx.stat("join:input-without-frame-rate")
+            if any(m.get("drop_meta") for m in spec["inputs"]):
+                ctx.stat("join:input-with-minimal-metadata")
+            for cls in sorted(set(line_class(li) for m in spec["inputs"]
+                                  for ls in m["logs"].values() for li in ls)):
+                ctx.stat("join:log-line-" + cls)
             if run["out"] and spec.get("chunk_bytes") and run["out"]["n"] > 10 and \
                     set(run["out"]["innate"]) & set(NONSCAL):
                 ctx.stat("join:non-scalar-append-across-chunk-boundary")
@@ -776,7 +1141,8 @@ def evaluate(ctx, spec, res, answers, workdir, collect_mirror):
                 small = shrink_join(spec, run["order"], workdir, bad)
                 ctx.violation("spec", "join: " + bad[0][:300], small)
                 continue
-            if answers is not None:
+            if answers is not None and not (oracle_join(spec, res, run["order"]) or
+                                            {}).get("undefined"):
                 d = mirror_join(run, answers[ri])
                 if d:
                     collect_mirror.append((spec, run["order"], d))
@@ -788,25 +1154,36 @@ def evaluate(ctx, spec, res, answers, workdir, collect_mirror):
             ctx.case(("split", spec["input"], run["s"]), nontrivial=nt,
                      sample={"kind": "split", "N": x["n"], "s": run["s"],
                              "parts": [p["n"] for p in (run["parts"] or [])],
-                             "model": answers[2 * ri][:80] if answers else None} if nt else None)
+                             "model": answers[3 * ri][:80] if answers else None} if nt else None)
             ctx.stat("split:" + ("s=1" if run["s"] == 1 else "s>N" if run["s"] > x["n"] else
                                  "s=N" if run["s"] == x["n"] else
                                  "divides" if x["n"] % run["s"] == 0 else "remainder"))
             if spec["input"].get("z0") or spec["input"].get("zN"):
                 ctx.stat("split:empty-boundary-image")
+            if spec["input"].get("drop_meta"):
+                ctx.stat("split:input-with-minimal-metadata")
+            for cls in sorted(set(line_class(li) for ls in spec["input"]["logs"].values()
+                                  for li in ls)):
+                ctx.stat("split:log-line-" + cls)
             zi = set(spec["input"].get("zero_image", [])) | set(spec["input"].get("zero_contour", []))
             if any(0 < j < x["n"] - 1 and (j % run["s"] == 0 or j % run["s"] == run["s"] - 1)
                    for j in zi):
                 ctx.stat("split:empty-image-at-interior-part-boundary")
             if run["rt"] is not None:
                 ctx.stat("split:roundtrip")
+            if run["error"] and any(not p for p in expected_parts(
+                    x["n"], run["s"], spec["input"].get("z0"), spec["input"].get("zN"))):
+                ctx.stat("split:empty-part-raises")
+            if spec["input"].get("tables"):
+                ctx.stat("split:input-with-tables")
             if bad:
                 ctx.violation("spec", "split: " + bad[0][:300],
                               {"kind": "split", "input": spec["input"], "sizes": [run["s"]],
                                "roundtrip": spec.get("roundtrip", True)})
                 continue
             if answers is not None:
-                d = mirror_split(spec, res, run, answers[2 * ri], answers[2 * ri + 1])
+                d = mirror_split(spec, res, run, answers[3 * ri], answers[3 * ri + 1],
+                                 answers[3 * ri + 2])
                 if d:
                     collect_mirror.append((spec, run["s"], d))
 
